@@ -187,6 +187,12 @@ Definition update_whitelist (s : bridge_state) (sender val : Z) (add : bool) : O
   if add then Ok (s <| br_whitelist := br_whitelist s ++ [val] |>)
   else Ok (s <| br_whitelist := filter (fun v => negb (v =? val)) (br_whitelist s) |>).
 
+(* MsgSetBlacklist (x/admin role ETHBRIDGE; [is_admin]: whether the sender holds it): the stored blacklist becomes exactly
+   the listed addresses. Addresses are Ethereum ACCOUNTS here: the spellings of one address are one id. *)
+Definition set_blacklist (s : bridge_state) (is_admin : bool) (sender : Z) (addrs : list Z) : Outcome bridge_state :=
+  if negb (mem sender (br_accounts s)) then bfail else
+  if negb is_admin then bfail else Ok (s <| br_blacklist := addrs |>).
+
 Definition update_ceth_receiver (s : bridge_state) (sender r : Z) : Outcome bridge_state :=
   if negb (mem sender (br_accounts s)) then bfail else
   if negb (sender =? br_oracle_admin s) then bfail else Ok (s <| br_ceth_receiver := Some r |>).
